@@ -313,48 +313,83 @@ def literal_passthrough(ctx):
         bad += [c for c in calls_in(lu) if is_name(c.func, spec)]
     ctx.ob(not bad, u, 'argument mode never calls the spec it is given',
            'calls: %s' % [norm(c) for c in bad])
-    # the result starts as the spec itself and is replaced only under a type(spec) test
-    rets = [n for n in u.own_nodes() if isinstance(n, ast.Return)]
-    ctx.require(rets, 'mode() has no return')
-    final = [r for r in rets if any(r is s for s in u.node.body)]
-    ctx.require(len(final) == 1 and isinstance(final[0].value, ast.Name), 'mode(): final `return <result>` not found')
-    rv = final[0].value.id
-    # the only other way out is the memo hit: any further early return (``if not spec: return
-    # spec``) hands a container back without rebuilding it
-    for r in rets:
-        if r is final[0]:
-            continue
-        v = r.value
-        hit = isinstance(v, ast.Subscript) and isinstance(v.value, ast.Attribute) and v.value.attr == 'cache'
-        ctx.ob(hit, u, 'an early return is a memo hit: %s' % norm(r),
-               '' if hit else 'containers taking this exit are returned as the spec\'s own object (shared between evaluations)', node=r)
-    defs = [n for n in u.own_nodes() if isinstance(n, ast.Assign) and any(
-        is_name(t, rv) for t in n.targets)]
-    plain = [d for d in defs if is_name(d.value, spec)]
-    ctx.ob(len(plain) == 1 and any(plain[0] is s for s in u.node.body), u,
-           'the result is initially the spec itself (literal pass-through): %s' % [norm(d) for d in plain])
-    for d in defs:
-        if d in plain:
-            continue
-        guards = [a for a in ancestors(d) if isinstance(a, ast.If)]
-        def is_type_test(t):
-            return isinstance(t, ast.Compare) and isinstance(t.left, ast.Call) and is_name(t.left.func, 'type') \
-                and t.left.args and is_name(t.left.args[0], spec) and isinstance(t.ops[0], (ast.In, ast.Is))
-        ok = any(is_type_test(g.test) for g in guards)
-        ctx.ob(ok, u, 'the result is rebuilt only under a type(spec) container test: %s' % norm(d), node=d)
-    # ... and always under it: no further condition decides whether a container is rebuilt (an
-    # empty or otherwise special container handed back as it is would be shared between evaluations)
-    for g in [n for n in u.own_nodes() if isinstance(n, ast.If)]:
-        mentions = any(isinstance(x, ast.Call) and is_name(x.func, 'type') and x.args and is_name(x.args[0], spec)
-                       for x in ast.walk(g.test))
-        if mentions and any(isinstance(a, ast.If) and mentions for a in [g]):
-            outer = [a for a in ancestors(g) if isinstance(a, ast.If)]
-            if outer:
-                continue        # dict-vs-list choice inside an already decided container branch
-            ok = is_type_test(g.test) or (isinstance(g.test, ast.BoolOp) and isinstance(g.test.op, ast.Or)
-                                          and all(is_type_test(v) for v in g.test.values))
-            ctx.ob(ok, u, 'every container of that type is rebuilt (the type test is the whole condition): %s' % norm(g.test),
-                   '' if ok else 'a container that fails the extra condition is returned as the spec\'s own object', node=g)
+    # what mode() returns, case by case on type(spec): every path is followed with the tests on
+    # type(spec) decided (other tests -- the memo lookup -- are taken both ways)
+    from ..util import clone
+    CONTAINERS = ('list', 'dict', 'tuple', 'set', 'frozenset')
+
+    def decide(t, case):
+        if isinstance(t, ast.BoolOp):
+            vals = [decide(v, case) for v in t.values]
+            if isinstance(t.op, ast.And):
+                return False if False in vals else (True if all(v is True for v in vals) else None)
+            return True if True in vals else (False if all(v is False for v in vals) else None)
+        if isinstance(t, ast.UnaryOp) and isinstance(t.op, ast.Not):
+            v = decide(t.operand, case)
+            return None if v is None else not v
+        if isinstance(t, ast.Compare) and len(t.ops) == 1 and norm(t.left) == 'type(%s)' % spec:
+            c, o = t.comparators[0], t.ops[0]
+            names = [x.id for x in (c.elts if isinstance(c, (ast.Tuple, ast.List, ast.Set)) else [c]) if isinstance(x, ast.Name)]
+            if isinstance(o, (ast.In, ast.Is, ast.Eq)):
+                return case in names
+            if isinstance(o, (ast.NotIn, ast.IsNot, ast.NotEq)):
+                return case not in names
+        return None
+
+    def subst(e, env):
+        class Sub(ast.NodeTransformer):
+            def visit_Name(self, node):
+                if isinstance(node.ctx, ast.Load) and node.id in env:
+                    return clone(env[node.id])
+                return node
+        return Sub().visit(clone(e))
+
+    def run(stmts, case, env):
+        """-> outcomes [('return', expr, stmt)] plus ('fall', env) when the end is reached"""
+        if not stmts:
+            return [('fall', env, None)]
+        st, rest = stmts[0], stmts[1:]
+        if isinstance(st, ast.Return):
+            return [('return', subst(st.value, env) if st.value is not None else ast.Constant(None), st)]
+        if isinstance(st, ast.Raise):
+            return []
+        if isinstance(st, ast.If):
+            v = decide(subst(st.test, env), case)
+            arms = [st.body] if v is True else [st.orelse] if v is False else [st.body, st.orelse]
+            out = []
+            for arm in arms:
+                for o in run(arm, case, env):
+                    out += run(rest, case, o[1]) if o[0] == 'fall' else [o]
+            return out
+        if isinstance(st, ast.Assign) and len(st.targets) == 1 and is_name(st.targets[0]) and not isinstance(st.value, ast.Lambda):
+            env = dict(env)
+            env[st.targets[0].id] = subst(st.value, env)
+            return run(rest, case, env)
+        if isinstance(st, (ast.For, ast.While, ast.Try, ast.With)):
+            raise AnalysisError('mode(): %s in the argument valuator is not modelled' % type(st).__name__)
+        return run(rest, case, env)
+
+    n_paths = 0
+    for case in CONTAINERS + ('<any other type>',):
+        outs = run(list(u.node.body), case, {})
+        ctx.require(outs, 'mode(): no return for type(spec) == %s' % case)
+        for kind, e, st in outs:
+            n_paths += 1
+            if kind == 'fall':
+                e, st = ast.Constant(None), None
+            txt = norm(e)
+            if case not in CONTAINERS:
+                ok = txt == spec
+                ctx.ob(ok, u, 'a spec that is no plain container is its own value (literal pass-through): returns %s' % txt,
+                       '' if ok else 'a literal argument is replaced by something else', node=st)
+            else:
+                hit = txt == 'self.cache[id(%s)]' % spec
+                rebuilt = isinstance(e, ast.Call) and norm(e.func) == 'type(%s)' % spec
+                ok = hit or rebuilt
+                ctx.ob(ok, u, 'a %s is rebuilt (or is the copy being built, on a memo hit): returns %s' % (case, txt[:60]),
+                       '' if ok else 'containers taking this exit are returned as the spec\'s own object (shared between evaluations)'
+                       if txt == spec else 'neither the memoised copy nor a new %s' % case, node=st)
+    ctx.ob(n_paths >= 6, u, 'paths through the argument valuator examined: %d' % n_paths)
     # container types handled: dict list tuple set frozenset
     types = set()
     for n in u.own_nodes():
